@@ -31,6 +31,7 @@ func plan(tier string, seed int64) []sup.Batch {
 	nOrd := 6 * pow(len(exhReqAlphabet), ordLen)
 	bs = append(bs, sup.Chunk("exhord", "exhord", nOrd, (nOrd+15)/16, 1, map[string]any{"len": ordLen})...)
 	bs = append(bs, sup.Chunk("rand", "rand", nRand, (nRand+15)/16, 1, nil)...)
+	bs = append(bs, sup.Chunk("disklink", "disklink", nRand/8, (nRand/8+3)/4, 1, nil)...)
 	from, k := 0, 0
 	for _, pc := range conc {
 		for i := 0; i < pc[1]; i++ {
@@ -182,6 +183,7 @@ func main() {
 			"exhdefs: every placement of two names (a calls b) over {helpers, 2 layouts, 2 views}; exhord: every request sequence of length L over 7 requests on 3 fixed programs; rand: seeded programs and sequences. " +
 			"conc: fresh provider, 2..32 goroutines released together issue first requests for overlapping and distinct keys with schedule noise at the filespace boundary under GOMAXPROCS 2/4/16; every caller's answer is checked like above; the race detector decides for the provider files. distinct = distinct (program, requests); non-trivial = a requested view has a name defined in more than one of its layers (sequential) / at least two callers were inside the provider before the first returned (concurrent)",
 		Assumptions: []string{
+			"disklink: the programs are also written to a disk filespace where one template file is a symbolic link to a file of the same content elsewhere in the tree (answers must equal the reference, cached and uncached)",
 			"within one layer a name is defined once, so the result does not depend on the order in which a directory is walked",
 			"a view owns every template file below its directory; empty template files (rejected by the loaders on purpose) and view name \"\" are not generated",
 			"in every other request sequence the base and layout templates are executed exactly as handed out (what a caller does; the provider must still answer every later request); also by the concurrent callers of every other plan; otherwise they are rendered on a private clone",
@@ -196,6 +198,8 @@ func main() {
 				runExhOrd(c, b)
 			case "rand":
 				runRand(c, b)
+			case "disklink":
+				runDiskLink(c, b)
 			case "conc":
 				runConc(c, b)
 			}
